@@ -108,7 +108,16 @@ impl Vm {
         // A compile error has no stack trace: do not leave the trace of an
         // earlier failed evaluation in place for the caller to report again
         self.last_stacktrace = None;
-        let lambda = self.compile_runnable(cell)?;
+        let lambda = match self.compile_runnable(cell) {
+            Ok(lambda) => lambda,
+            Err(e) => {
+                // Reclaim what the abandoned compilation allocated (literals,
+                // nested lambdas): nothing else collects when evaluation
+                // after evaluation fails before it runs
+                self.run_gc();
+                return Err(e);
+            }
+        };
         trace!("entry: \n{}", self.decompile_text(&lambda));
         let lambda = self.heap.put(lambda);
         self.ip.0 = lambda.as_ptr().unwrap();
